@@ -328,11 +328,17 @@ func Run(c *Cmd) *Result {
 	}
 
 	err := cmd.Wait()
+	ttyDrained := true
 	if master != nil {
-		// give the reader a moment to drain, then force it to stop
+		// the reader ends when the kernel reports that every descriptor of the
+		// slave side is closed and the buffer is empty (EIO): everything the
+		// tool wrote has been collected by then, however loaded the machine is.
+		// The timer is a watchdog for a descendant that keeps the terminal
+		// open; when it fires the result is marked as not usable.
 		select {
 		case <-ttyDone:
-		case <-time.After(200 * time.Millisecond):
+		case <-time.After(30 * time.Second):
+			ttyDrained = false
 		}
 	}
 	if early != nil {
@@ -348,6 +354,13 @@ func Run(c *Cmd) *Result {
 	ttyMu.Unlock()
 	if ctx.Err() == context.DeadlineExceeded {
 		res.TimedOut = true
+	}
+	if !ttyDrained && res.Err == nil {
+		defer func() {
+			if res.Err == nil {
+				res.Err = errors.New("cli: the pseudo terminal was still open 30 s after the tool ended: its output may be incomplete")
+			}
+		}()
 	}
 	res.Exit = 0
 	if err != nil {
